@@ -52,7 +52,7 @@ type MemberIf struct {
 
 // Call the function with the arguments provided.
 func (f *MemberIf) Call(s *slip.Scope, args slip.List, depth int) (result slip.Object) {
-	slip.CheckArgCount(s, depth, f, args, 2, 6)
+	slip.CheckArgCount(s, depth, f, args, 2, 4)
 	predicate := ResolveToCaller(s, args[0], depth)
 	var list slip.List
 	switch ta := args[1].(type) {
